@@ -180,6 +180,7 @@ pub fn property() -> Property {
     Property {
         id: "C06",
         subs: vec![sub::<TopDown>()],
+        fuzz: vec![],
         assumptions: vec![
             "CNFs over <= 7 variables, <= 12 clauses",
             "the decision order is a permutation of 0..Cnf::num_vars() (largest label + 1), as every caller in the repository passes",
